@@ -462,8 +462,20 @@ uint32_t FusionEngineFramer::Resync() {
     uint8_t current_byte = buffer_[offset];
 
     // Skip forward until we see a SYNC0.
+    //
+    // A SYNC0 immediately followed by another SYNC0 cannot be the start of a
+    // message, so it is skipped here. OnByte() handles a repeated SYNC0 by
+    // rewinding next_byte_index_, which only works when bytes are appended one
+    // at a time by OnData(). Here the bytes are already in the buffer and
+    // next_byte_index_ is set from offset below, so the extra SYNC0 bytes would
+    // be counted as part of the candidate header: the header would be parsed
+    // from the wrong position, and after 24 or more repeats the header length
+    // test would never fire and the buffer would eventually overflow.
     if (state_ == State::SYNC0) {
-      if (current_byte == MessageHeader::SYNC0) {
+      bool is_repeated_sync0 = current_byte == MessageHeader::SYNC0 &&
+                               offset + 1 < available_bytes &&
+                               buffer_[offset + 1] == MessageHeader::SYNC0;
+      if (current_byte == MessageHeader::SYNC0 && !is_repeated_sync0) {
         VLOG(1) << "Candidate message start found @ offset " << offset << "/"
                 << available_bytes << ".";
         // Shift all of the data left in the buffer.
